@@ -1,2 +1,98 @@
-/- Property theorems for C01 (placeholder until the proofs land). -/
-import Avt.Spec.C01
+/-
+  Avt.Props.C01 — total on every input: no panic.
+
+  The model is *checked*: every Rust panic site (index out of range, `usize` underflow, slice
+  bounds, rotate assertion, `unwrap`, the `assert!` in `reflow`) returns `none`.  "`isSome`" is
+  therefore literally "the call returns normally".
+
+  Hypotheses that remain: `ResizeOK` (contract of `Buffer.resize`/reflow; discharged by
+  `Avt.resizeOK` in Avt/Lemmas/ResizeOK.lean) and `ParserOK` (the parser never panics and keeps its
+  register invariant; parser block C03/C20).
+
+  Loop bounds (the logical part of "running time bounded by the work requested"): every function of the
+  model is a structural recursion accepted by Lean's termination checker without `partial` and
+  without fuel, except `Buffer.reflowGo`, whose fuel `reflowFuel` is linear in the size of the buffer
+  (its sufficiency is part of `ResizeOK`).  The only loop whose iteration count is taken from the
+  input, REP, performs exactly `asUsize n 1 ≤ 65535` prints (`C01_rep_count`, `C01_rep_bound`);
+  `decaln` performs `rows × cols` cell writes; DECSET/DECRST/SM/RM/SGR iterate over their (≤ 32)
+  parameters; every scroll/insert/delete count is clamped to the region or row before use
+  (`min n (e - s)`, `min n (cols - col)` in Avt/Model/Buffer.lean).  Machine time is outside the model.
+-/
+import Avt.Lemmas.InvVt
+import Avt.Lemmas.InvDump
+
+namespace Avt.Props.C01
+open Avt
+
+/-- the four public mutators never panic in a state satisfying the invariant -/
+theorem C01_total (hR : ResizeOK) (hP : ParserOK) {v : Vt} (h : Inv v = true) (op : PubOp)
+    (hv : op.valid) : (step v op).isSome = true := by
+  obtain ⟨v', h1, _⟩ := step_ok hR hP op h hv
+  rw [h1]; rfl
+
+/-- `Vt::feed` (one character) never panics -/
+theorem C01_feed (hR : ResizeOK) (hP : ParserOK) {v : Vt} (h : Inv v = true) (c : Nat) :
+    (v.feed c).isSome = true := by
+  obtain ⟨v', h1, _⟩ := Vt.feed_ok hR hP c h
+  rw [h1]; rfl
+
+/-- every control function is total under the terminal invariant -/
+theorem C01_execute (hR : ResizeOK) {t : Terminal} (h : TInv t = true) (f : Function) :
+    (t.execute f).isSome = true := by
+  obtain ⟨t', h1, _⟩ := Terminal.execute_ok hR f (TOK.of_TInv h)
+  rw [h1]; rfl
+
+/-- the queries that can panic in Rust (`dump()`, `line(n)` for `n < rows`) return normally; the
+    others (`text`, `view`, `lines`, `cursor`, `size`, draining `Changes.scrollback`,
+    `TextCollector.flush`) are total functions of the model -/
+theorem C01_queries {v : Vt} (h : Inv v = true) : queriesOK v := by
+  refine ⟨?_, fun n hn => ?_⟩
+  · obtain ⟨s, hs⟩ := Vt.dump_ok h
+    rw [hs]; rfl
+  · obtain ⟨_, ht⟩ := (Vt.inv_iff v).1 h
+    have : n < v.terminal.buffer.view.length := by rw [ht.bok.hv, ht.brows]; exact hn
+    simp [Vt.line, List.getElem?_eq_getElem this]
+
+/-- the `dump` family on its own: `Pen.dump` is unconditionally total, `Buffer.dump` needs only
+    `rows ≥ 1`, `Terminal.dump` the terminal invariant -/
+theorem C01_dump_parts :
+    (∀ p : Pen, p.dump.isSome = true) ∧ (∀ b : Buffer, 1 ≤ b.rows → b.dump.isSome = true)
+      ∧ (∀ t : Terminal, TInv t = true → t.dump.isSome = true)
+      ∧ (∀ p : Parser, PInv p = true → p.dump.isSome = true) := by
+  refine ⟨fun p => ?_, fun b hb => ?_, fun t ht => ?_, fun p hp => ?_⟩
+  · obtain ⟨s, hs⟩ := p.dump_ok; rw [hs]; rfl
+  · obtain ⟨s, hs⟩ := Buffer.dump_ok hb; rw [hs]; rfl
+  · obtain ⟨s, hs⟩ := Terminal.dump_ok (TOK.of_TInv ht); rw [hs]; rfl
+  · obtain ⟨s, hs⟩ := Parser.dump_ok hp; rw [hs]; rfl
+
+/-- `TextCollector::{feed_str, resize}` never panic (`flush` is a total function) -/
+theorem C01_collector (hR : ResizeOK) (hP : ParserOK) (tc : TextCollector) (h : Inv tc.vt = true) :
+    (∀ s, (tc.feedStr s).isSome = true) ∧ (∀ c r, 1 ≤ c → 1 ≤ r → (tc.resize c r).isSome = true) := by
+  refine ⟨fun s => ?_, fun c r hc hr => ?_⟩
+  · obtain ⟨v', ch, h1, _⟩ := Vt.feedStr_ok hR hP s h
+    simp [TextCollector.feedStr, h1]
+  · obtain ⟨v', ch, h1, _⟩ := Vt.resize_ok hR h hc hr
+    simp [TextCollector.resize, h1]
+
+/-- every reachable state: all public mutators and all queries return normally -/
+theorem C01_reach (hR : ResizeOK) (hP : ParserOK) {v : Vt} (h : Reach v) :
+    (∀ op : PubOp, op.valid → (step v op).isSome = true) ∧ queriesOK v :=
+  have hi := reach_inv hR hP h
+  ⟨fun op hv => C01_total hR hP hi op hv, C01_queries hi⟩
+
+/-- REP is `asUsize n 1` successive prints of the same character … -/
+theorem C01_rep_count (t : Terminal) (ch : Nat) (k : Nat) :
+    t.printN ch k = Terminal.foldM' (fun t c => t.print c) (List.replicate k ch) t := by
+  induction k generalizing t with
+  | zero => rfl
+  | succ k ih =>
+    simp only [Terminal.printN, List.replicate_succ, Terminal.foldM']
+    cases t.print ch with
+    | none => rfl
+    | some t' => exact ih t'
+
+/-- … and for a `u16` parameter that count is between 1 and 65535 -/
+theorem C01_rep_bound {n : Nat} (h : n < 65536) : 1 ≤ asUsize n 1 ∧ asUsize n 1 ≤ 65535 := by
+  unfold asUsize; split <;> omega
+
+end Avt.Props.C01
